@@ -737,6 +737,28 @@ def create_checkpoint_traces(pm: ProtocolModel) -> list[Trace]:
     return enumerate_paths(run)
 
 
+
+def failure_look_traces(pm: ProtocolModel) -> list[Trace]:
+    """ExecutionState.raise_if_checkpointing_failed interpreted on its own (in the wrapper model it is one FAILCHECK event): the flag's is_set / wait are
+    the modelled completion-event operations, so a path on which the flag is seen raised and nothing is raised is visible."""
+    prog = pm.prog
+    fn = prog.func("state", "ExecutionState.raise_if_checkpointing_failed")
+    cfg = pm.make_config(faults=False, user_raises={}, extra_hooks=completion_event_hooks(prog))
+    cfg.hooks.pop(fn.fq, None)
+
+    def run(ch: Chooser) -> Trace:
+        it = Interp(prog, ch, cfg)
+        it.site_stack.append("<driver>")
+        try:
+            state = make_real_state(it, prog)
+            it.events.clear()
+            v = it.call_function(fn, state, [], {}, None, None, None)
+            return Trace(("raise_if_checkpointing_failed", ""), it.events, "return", v, pc=it.pc)
+        except _Raise as r:
+            return Trace(("raise_if_checkpointing_failed", ""), it.events, "raise", r.exc, r.origin, r.site, pc=it.pc)
+
+    return enumerate_paths(run)
+
 # ---------------------------------------------------------------------------
 # consumer model: _collect_checkpoint_batch and checkpoint_batches_forever
 # ---------------------------------------------------------------------------
